@@ -169,7 +169,7 @@ func init() {
 		return recs
 	}
 
-	// text/template: Execute(w, data) writes one opaque piece carrying (template text, data)
+	// text/template: see stubs_tmpl.go (the parse tree is evaluated over engine values)
 	externals["text/template.New"] = func(in *Interp, fr *frame, args []value) value {
 		t := in.findType("text/template", "Template")
 		cell := in.zero(t)
@@ -203,15 +203,7 @@ func init() {
 		return args[0]
 	}
 	externals["(*text/template.Template).Execute"] = func(in *Interp, fr *frame, args []value) value {
-		st := tmplOf(in, args[0])
-		in.path.opaqueN++
-		data := args[2]
-		if itf, ok := data.(iface); ok {
-			data = itf.v
-		}
-		piece := &Rope{atoms: []Atom{{op: &Opaque{verb: "tmpl:" + st.name + ":" + st.text, arg: data, id: in.path.opaqueN}}}}
-		in.path.tmplData = append(in.path.tmplData, data)
-		return in.writeTo(fr, args[1], piece).(tuple)[1]
+		return in.execTemplate(fr, tmplOf(in, args[0]), args[1], args[2])
 	}
 }
 
